@@ -17,20 +17,30 @@ namespace BV
 /-- the surviving matches never overlap or touch one another -/
 theorem C03_matches_disjoint (lines : List Str) (pats : List CPat) (ms : List PMatch)
     (h : iterMatches lines pats = some ms) :
-    ms.Pairwise (fun a b => a.lineno ≠ b.lineno ∨ a.stop < b.start ∨ b.stop < a.start) := by
-  sorry
+    ms.Pairwise (fun a b => a.lineno ≠ b.lineno ∨ a.stop < b.start ∨ b.stop < a.start) :=
+  (iterMatches_facts lines pats ms h).1
 
 /-- every surviving match lies inside its line -/
 theorem C03_matches_in_bounds (lines : List Str) (pats : List CPat) (ms : List PMatch)
     (h : iterMatches lines pats = some ms) :
     ∀ m ∈ ms, ∃ line, lines[m.lineno]? = some line ∧ m.start < m.stop ∧ m.stop ≤ line.length := by
-  sorry
+  intro m hm
+  obtain ⟨-, h2, line, h3, h4⟩ := (iterMatches_facts lines pats ms h).2 m hm
+  exact ⟨line, h3, h2, h4⟩
 
 /-- success means every configured pattern was found somewhere in the file -/
 theorem C03_all_patterns_found (pats : List CPat) (v : VInfo) (old new : List Str) (ms : List PMatch)
     (hm : iterMatches old pats = some ms) (h : rewriteLines pats v old = .ok new) :
     ∀ p ∈ pats, ∃ m ∈ ms, m.pat = p := by
-  sorry
+  intro p hp
+  obtain ⟨ms', hms', -, hall⟩ := rewriteLines_ok h
+  rw [hm] at hms'
+  cases hms'
+  rw [List.all_eq_true] at hall
+  have := hall p hp
+  rw [List.any_eq_true] at this
+  obtain ⟨m, hmem, hmp⟩ := this
+  exact ⟨m, hmem, by simpa using hmp⟩
 
 /-- the text a match is replaced with -/
 def replOf (v : VInfo) (m : PMatch) : Str :=
@@ -52,7 +62,12 @@ theorem C03_every_occurrence (pats : List CPat) (v : VInfo) (old new : List Str)
     (m : PMatch) (hmem : m ∈ ms) :
     ∃ newLine, new[m.lineno]? = some newLine ∧
       (newLine.drop (shiftedStart v ms m).toNat).take (replOf v m).length = replOf v m := by
-  sorry
+  have hrepl : replOf v = replOfL v := rfl
+  have hshift : shiftedStart v ms m = (m.start : Int) +
+      ((ms.filter (fun m' => m'.lineno == m.lineno && decide (m'.stop < m.start))).map
+        (growth v)).sum := rfl
+  rw [hrepl, hshift]
+  exact rewriteLines_occ hm h m hmem
 
 /-- `{version}` denotes the version pattern itself: such an occurrence is rendered as the
     announced version (normalize_pattern with raw = "{version}") -/
@@ -60,7 +75,10 @@ theorem C03_version_placeholder (vp : Str) :
     normalizePattern vp "{version}".toList =
       (if isInfix "{pep440_version}".toList vp
        then replaceAll "{pep440_version}".toList (convertToPep440 vp) vp else vp) := by
-  sorry
+  unfold normalizePattern
+  have h1 : isInfix "{version}".toList "{version}".toList = true := by decide
+  simp only [h1, if_true]
+  rw [replaceAll_self _ _ (by decide)]
 
 /-- the defect that was repaired (DESIGN.md D2): two patterns on one line.  With the repaired
     right-to-left application both occurrences are replaced. -/
